@@ -22,6 +22,7 @@ EXPLANATION = (
     "precedence file < --config < other CLI options; None does not override. R7: only schema fields are "
     "written onto the settings object. Equality of the effective configuration for concrete values is "
     "not decided."
+    " R4: relative paths are rooted at the project file's directory on every entry path. R8: the markdown metadata grammar distinguishes key lines from continuation lines. R2 is decided on the inlined event trace of convert_setting."
 )
 ASSUMPTIONS = ["argparse dest derivation: explicit dest= or the first long option name"]
 
